@@ -46,7 +46,7 @@ class Ctx:
 # ----------------------------------------------------------------------------- design level
 
 def run_mc(ctx, module, constants, properties=(), invariants=(), view="View", workers=8, timeout=1500,
-           tag=None):
+           tag=None, allow_dead=()):
     cfg = "SPECIFICATION Spec\nCONSTANTS\n"
     for k, v in constants.items():
         cfg += "  %s = %s\n" % (k, v)
@@ -63,7 +63,7 @@ def run_mc(ctx, module, constants, properties=(), invariants=(), view="View", wo
                         "not of the code):\n%s" % (module, tlc_text(res, 80)))
     # vacuity gate: every action of the model must have been taken (generated at least one state)
     actions = {k: v for k, v in res.coverage.items() if k not in ("Init",)}
-    dead = [k for k, v in actions.items() if v[1] == 0]
+    dead = [k for k, v in actions.items() if v[1] == 0 and k not in allow_dead]
     if dead:
         raise ToolError("vacuity gate: actions never taken in %s: %s" % (module, dead))
     ctx.design.append({"module": module, "constants": constants, "properties": list(properties),
